@@ -170,6 +170,10 @@ func Discharge(res *FuncResult, cfg SolverConfig) {
 	wg.Wait()
 }
 
+var stage1b = solverSpec{"z3-new/ematching/alt", func(t int, f string) []string {
+	return []string{"z3-new", "-smt2", fmt.Sprintf("-T:%d", t), "smt.mbqi=false", "smt.random_seed=5", "sat.random_seed=5", "smt.arith.solver=2", f}
+}}
+
 func solveOne(o *Obligation, file string, cfg SolverConfig) {
 	ctx := context.Background()
 	// stage 1: z3-new, short timeout
@@ -180,8 +184,38 @@ func solveOne(o *Obligation, file string, cfg SolverConfig) {
 	if o.Kind == "cover" {
 		t1 = 2
 	}
-	st, out, ms := runSolver(ctx, solvers[0], t1, file)
-	o.Solver, o.Status, o.Millis = solvers[0].name, st, ms
+	var st, out string
+	var ms int64
+	if o.Kind == "cover" || os.Getenv("GVC_STAGE1_SINGLE") != "" {
+		st, out, ms = runSolver(ctx, solvers[0], t1, file)
+		o.Solver, o.Status, o.Millis = solvers[0].name, st, ms
+	} else {
+		// two differently seeded configurations side by side: a query the default configuration
+		// is unlucky with (seen: 0.05 s with one seed, > 30 s with another, same query) is then
+		// decided at once instead of after the stage-1 cap plus a loaded race
+		type a1 struct {
+			name, st, out string
+			ms            int64
+		}
+		c1, cancel1 := context.WithCancel(ctx)
+		ch1 := make(chan a1, 2)
+		for _, sp := range []solverSpec{solvers[0], stage1b} {
+			go func(sp solverSpec) {
+				s, o2, m := runSolver(c1, sp, t1, file)
+				ch1 <- a1{sp.name, s, o2, m}
+			}(sp)
+		}
+		first := <-ch1
+		if first.st != "unsat" && first.st != "sat" {
+			second := <-ch1
+			if second.st == "unsat" || second.st == "sat" || first.st == "error" {
+				first = second
+			}
+		}
+		cancel1()
+		st, out, ms = first.st, first.out, first.ms
+		o.Solver, o.Status, o.Millis = first.name, st, ms
+	}
 	if o.Kind == "cover" {
 		return
 	}
